@@ -10,7 +10,10 @@
 (*                        integer digits parses to exactly the integer it  *)
 (*                        denotes (plain literals: digits[.digits])        *)
 (*   Inv.Parse.exact:<class> / Inv.Parse.rejected:<class> /                *)
-(*   Inv.Parse.nondecimal-accepted:<class>   strings offered as they are   *)
+(*   Ext.Parse.nondecimal-accepted:<class>   strings offered as they are   *)
+(*       (a string that is NOT a decimal amount and is accepted all the     *)
+(*       same: outside C18's statement, which speaks of decimal strings -   *)
+(*       an extension observation, not a verdict)                           *)
 (*                        (zero-padded, Go/C literal syntaxes, exponents,  *)
 (*                        signs, blanks, words): the exact decimal value   *)
 (*                        or a rejection, never another number             *)
@@ -90,7 +93,7 @@ JudgeParseRaw(e) ==
       plain == lit.ok /\ ~lit.plus /\ lit.int # <<>> /\ (lit.dot => lit.frac # <<>>) /\ ~lit.hasExp
   IN  Tag(~e.panic, "Inv.Total.panic") \o
       (IF e.panic THEN <<>>
-       ELSE IF ~lit.ok THEN Tag(~e.ok, "Inv.Parse.nondecimal-accepted:" \o e.cls)
+       ELSE IF ~lit.ok THEN Tag(~e.ok, "Ext.Parse.nondecimal-accepted:" \o e.cls)
        ELSE LET dn == Denoted(lit) IN
             IF ~dn.inScope THEN <<>>
             ELSE IF ~e.ok THEN (IF plain THEN <<"Inv.Parse.rejected:" \o e.cls>> ELSE <<>>)
